@@ -11,8 +11,8 @@ open Acn Acn.EventCore Acn.Sim Acn.Registry
 variable {K : Type}
 
 /-- the last edge of a non-trivial path -/
-theorem Reach.last {st : Store} {a b : Id} (h : Reach st a b) :
-    a = b ∨ ∃ i o, Reach st a i ∧ st.get i = some o ∧ b ∈ o.refs := by
+theorem Reach.last {st : Store} {a b : Nat} (h : Reach st a b) :
+    a = b ∨ ∃ (i : Nat) (o : Obj), Reach st a i ∧ st.get i = some o ∧ b ∈ o.refs := by
   induction h with
   | refl _ => exact Or.inl rfl
   | @step i j k o hg hj hjk ih =>
@@ -73,7 +73,7 @@ theorem evseObj_refs' (sh : Show K) (cfg : Cfg K) (s : State K) (i : Nat) {j : N
   simp only [] at ha
   split at ha <;> simp only [List.cons_append, List.nil_append, List.mem_cons, List.not_mem_nil, or_false] at ha <;>
     (rcases ha with rfl | rfl | rfl | rfl | ha <;> first | (simp at hj; done) | skip) <;>
-    first | exact key 0 hj | (rcases ha with rfl | rfl <;> simp at hj) | (subst ha; simp at hj)
+    first | exact key 0 hj | (rcases ha with rfl | rfl <;> simp at hj)
 
 theorem eventObj_refs' (l : Layout) (s : State K) (e : Event) {j : Nat} (h : j ∈ (eventObj l s e).refs) :
     e.kind ≠ .recompute ∧ ∃ k, evIdx s e.sess = some k ∧ j = l.evId k := by
@@ -95,7 +95,9 @@ theorem ref_of_reach (sh : Show K) (cfg : Cfg K) (s : State K) {j : Nat} (hj : j
   have hev : ∀ k, (layout cfg s).evId k = 3 + cfg.stations.length + 2 * k := fun _ => rfl
   have hbt : ∀ k, (layout cfg s).battId k = 3 + cfg.stations.length + 2 * k + 1 := fun _ => rfl
   rcases Reach.last h with h0 | ⟨i, o, hri, hgi, hmem⟩
-  · exfalso; rw [hev] at h0; simp only [root] at h0; omega
+  · exfalso
+    have hr0 : (root : Nat) = 0 := rfl
+    rw [hev] at h0; omega
   · have hi : i < (layout cfg s).size := reach_lt sh cfg s (root_lt cfg s) hri
     rw [get_encode, if_pos hi] at hgi
     cases hgi
@@ -116,7 +118,6 @@ theorem ref_of_reach (sh : Show K) (cfg : Cfg K) (s : State K) {j : Nat} (hj : j
       rw [hev] at h1; omega
     · obtain ⟨x, hx, k, hk, hjk⟩ := evseObj_refs' sh cfg s _ hmem
       rw [hev, hev] at hjk
-      trace_state
       have hkj : k = j := by omega
       have hil : i - 3 < cfg.stations.length := by omega
       refine ⟨x.id, List.mem_append_right _ (List.mem_filterMap.2 ⟨cfg.stations[i - 3], List.getElem_mem hil, ?_⟩),
